@@ -376,7 +376,13 @@ func c19Run(c *vh.Ctx) {
 	if audio != "" {
 		starts = []avMode{{0, false}, {500, false}, {1250, false}, {0, true}}
 	}
+	// the grid, plus values that are not multiples of the library's 5 ms search step
+	var pms []int
 	for pm := 50; pm <= 2000; pm += step {
+		pms = append(pms, pm)
+	}
+	pms = append(pms, 51, 101, 104, 202, 251, 333, 999, 1001)
+	for _, pm := range pms {
 		for _, sp := range c19Spacings(src) {
 			for _, am := range starts {
 				ast := am.start
